@@ -26,7 +26,7 @@
 #include <unistd.h>
 
 #define SRV_MAXREQ 8
-#define SRV_MAXHDR 40
+#define SRV_MAXHDR 256
 #define SRV_MAXRESP 12
 #define SRV_EXT_B (1u << 16)    /* extension method "EXTB": may have a body */
 #define SRV_EXT_N (1u << 17)    /* extension method "EXTN": registered without EVHTTP_METHOD_HAS_BODY */
